@@ -1729,7 +1729,11 @@ static std::pair<It, It> divide_by_destination(InDegree& inDegree, int id,
   size_t size  = inDegree[inDegree.size() - 1];
   size_t block = (size + total - 1) / total;
 
-  It bb = std::lower_bound(inDegree.begin(), inDegree.end(), id * block);
+  // inDegree holds inclusive prefix sums: part id starts after the last node
+  // whose prefix sum is <= id * block, which is where part id - 1 ended
+  It bb = id == 0 ? inDegree.begin()
+                  : std::upper_bound(inDegree.begin(), inDegree.end(),
+                                     id * block);
   It eb;
   if (id + 1 == total)
     eb = inDegree.end();
